@@ -160,10 +160,12 @@ def run(res, tier, rng):
             out3 = call(URLFormatter(base_url=base, args=defaults, fragment=frag), path=path, args=args, ext=ext)
             exp3 = call(format_url, base, path=path, args=merged, fragment=frag, ext=ext)
             out4 = call(URLFormatter(base_url=base, path=path, args=merged, fragment=frag).format, ext=ext)
+            # a default path is replaced, not extended, by the call's
+            out5 = call(URLFormatter(base_url=base, path=rng.choice(paths), args=defaults, fragment=frag), path=path, args=args, ext=ext) if path is not None else exp3
             res.evaluations += 1
-            if out3 != exp3 or out4 != exp3:
+            if out3 != exp3 or out4 != exp3 or out5 != exp3:
                 res.violation("property", "URLFormatter with default arguments does not retain exactly the defaults updated by the call's arguments",
-                              input=dict(base=base, path=path, defaults=defaults, args=args, fragment=frag, ext=ext), impl=[out3, out4], expected=exp3)
+                              input=dict(base=base, path=path, defaults=defaults, args=args, fragment=frag, ext=ext), impl=[out3, out4, out5], expected=exp3)
         # the property, by parsing the result back
         base_dirty = ("?" in base or "#" in base)
         n_before = len(res.violations)
